@@ -22,8 +22,8 @@ type poolEv struct {
 // preceded by a New that no earlier Remove matched; between two News of one id there
 // must be a Remove (an id that is in the pool cannot be added again).
 type pairing struct {
-	open map[bc.Hash]bool
-	log  map[bc.Hash][]string
+	open          map[bc.Hash]bool
+	log           map[bc.Hash][]string
 	News, Removes int
 }
 
